@@ -141,7 +141,7 @@ def configs(draw, tier='quick', solvers=lab.SOLVERS, need_constraint=False, allo
         cfg['penalty'] = draw(lab.penalty_specs(dim))
     if allow_reducer and draw(st.integers(0, 5)) == 0:
         cfg['cost'] = draw(lab.cost_specs(dim, families=('vec',)))
-        cfg['reducer'] = dict(kind=draw(st.sampled_from(['sum', 'max', 'mean', 'add2', 'max2', 'sumsq', 'maxabs'])))
+        cfg['reducer'] = dict(kind=draw(st.sampled_from(['sum', 'max', 'mean', 'add2', 'max2', 'sumsq', 'maxabs', 'min2', 'max2'])))
         if cfg['cost'].get('single') and cfg['reducer']['kind'] not in ('sumsq', 'maxabs'):
             # a single signed residual is unbounded below: only a reducer that bounds it gives a minimisation problem
             cfg['reducer'] = dict(kind=draw(st.sampled_from(['sumsq', 'maxabs'])))
